@@ -79,8 +79,8 @@ def parent(t: str) -> bool:
     back = p / f[keys[-1]]
     if back.string != sid.string:
         return fail("div-string")
-    if back != sid:
-        return fail("div-roundtrip")
+    if back != sid and Sid(sid.string).type == sid.type:
+        return fail("div-roundtrip")      # '/' types its result naturally: asserted for naturally (first-match) typed Sids only (a query can build others)
     up = sid.get_with(**{keys[-1]: None})           # removing the last key is another way up ...
     if up != p or list(up.fields.items()) != list(p.fields.items()):
         return fail("get_with-last-None-is-not-the-parent")
